@@ -265,6 +265,14 @@ lzma_decode(void *coder_ptr, lzma_dict *restrict dictptr,
 
 	const size_t dict_start = dict.pos;
 
+	// "in" is NULL if the application called lzma_code() with
+	// next_in == NULL and avail_in == 0. Use a dummy buffer in that
+	// case to avoid null pointer + 0 (undefined behavior) in
+	// rc_to_local(). in_size is zero so the buffer is never read.
+	static const uint8_t in_dummy = 0;
+	if (in == NULL)
+		in = &in_dummy;
+
 	// Range decoder
 	rc_to_local(coder->rc, *in_pos, LZMA_IN_REQUIRED);
 
